@@ -76,6 +76,13 @@ def main():
             (d / "recheck.json").write_text(json.dumps({"id": d.name, "applies": True, "state": "superseded", "why": meta["superseded_by_fix"]}, indent=1) + "\n")
             print(d.name, "superseded by a fix (its demo passes with the change applied)")
             continue
+        if meta.get("judged_outside"):
+            # the input family the change needs lies outside the property's quantifier, or the unchanged library cannot be judged on it
+            # (reason in meta.json and DESIGN §7): the check is not asked to catch it; kept for the record
+            summary["not_applicable"] += 1
+            (d / "recheck.json").write_text(json.dumps({"id": d.name, "applies": True, "state": "outside", "why": meta["judged_outside"]}, indent=1) + "\n")
+            print(d.name, "judged outside the property's quantifier (not asked of the check)")
+            continue
         rc, o = sh(f"git apply --check {d / 'patch.diff'}", cwd=REPO)
         how = "plain"
         if rc != 0:
